@@ -728,6 +728,106 @@ def run_inplace_identity(run):
         shutil.rmtree(root, ignore_errors=True)
 
 
+def run_apply_lazy(run):
+    """the multithreaded apply over **lazy stacks** (LazyStackedTensorDict._multithread_apply_flat / _multithread_rebuild dispatch to the
+    members): `apply` / `_fast_apply` with num_threads 1, 2, 4 must return what num_threads=0 returns — container type, stack dim, batch
+    size, names, keys, values, None results / filter_empty, named / nested_keys, in-place (same member objects), `out=` — on stacks with
+    members of different shapes, nested stacks, stacks inside a tensordict, stack dim 0 / 1."""
+    from tensordict import LazyStackedTensorDict, TensorDict
+    from c11_canon import canon, first_diff
+    rng = run.rng
+    quick = run.tier == "quick"
+    opts = dict(lock=True, names=True, device=True)
+
+    def member(i, hetero, n=3):
+        d = {"a": torch.full((n, 2), float(i)), "n": {"x": torch.arange(n) + 10 * i, "e": {}}, "s": f"m{i}"}
+        if hetero:
+            d["h"] = torch.full((n, i + 1), float(i))
+        return TensorDict(d, [n])
+
+    def mk(kind):
+        if kind == "dim0":
+            return LazyStackedTensorDict(*[member(i, False) for i in range(3)], stack_dim=0)
+        if kind == "dim1-hetero":
+            return LazyStackedTensorDict(*[member(i, True) for i in range(3)], stack_dim=1, stack_dim_name="env")
+        if kind == "nested":
+            return LazyStackedTensorDict(*[LazyStackedTensorDict(*[member(2 * i + j, False) for j in range(2)], stack_dim=0) for i in range(2)], stack_dim=1)
+        if kind == "inside-td":
+            return TensorDict({"ls": LazyStackedTensorDict(*[member(i, True) for i in range(3)], stack_dim=0), "t": torch.arange(3.0)}, [3])
+        raise ValueError(kind)
+
+    def variants():
+        yield "plain", lambda td, nt: td.apply(lambda x: x + 1, num_threads=nt)
+        yield "named", lambda td, nt: td.apply(lambda name, x: x + len(name) if isinstance(name, str) else x, named=True, num_threads=nt)
+        yield "nested_keys", lambda td, nt: td.apply(lambda name, x: x + (len(name) if isinstance(name, tuple) else 1), named=True, nested_keys=True, num_threads=nt)
+        yield "none-some", lambda td, nt: td.apply(lambda x: None if x.dtype == torch.int64 else x * 2, num_threads=nt)
+        yield "none-some(filter_empty=False)", lambda td, nt: td.apply(lambda x: None if x.dtype == torch.int64 else x * 2, num_threads=nt, filter_empty=False)
+        yield "all-none", lambda td, nt: td.apply(lambda x: None, num_threads=nt)
+        yield "batch_size", lambda td, nt: td.apply(lambda x: x[..., None] if False else x, batch_size=list(td.batch_size), num_threads=nt)
+        yield "_fast_apply", lambda td, nt: td._fast_apply(lambda x: x - 1, num_threads=nt)
+        yield "_fast_apply(propagate_lock)", lambda td, nt: td.lock_()._fast_apply(lambda x: x - 1, num_threads=nt, propagate_lock=True)
+
+    def outcome(kind, fn, nt):
+        td = mk(kind)
+        try:
+            with time_limit(120):
+                r = fn(td, nt)
+            return ["ok", None if r is None else canon(r, **opts)]
+        except TimeoutError:
+            raise
+        except Exception as e:  # noqa: BLE001
+            return ["raised", type(e).__name__]
+
+    def inplace_report(kind, nt):
+        td = mk(kind)
+        members = td.tensordicts if isinstance(td, LazyStackedTensorDict) else td["ls"].tensordicts
+        handles = [m_["a"] for m_ in members] if not isinstance(members[0], LazyStackedTensorDict) else [mm["a"] for m_ in members for mm in m_.tensordicts]
+        want = [h + 1 for h in handles]
+        try:
+            with time_limit(120):
+                r = td.apply(lambda x: x + 1 if x.dtype == torch.float32 else None, inplace=True, num_threads=nt)
+            return ["ok", r is td, all(bool((h == w).all()) for h, w in zip(handles, want)), canon(td, **opts)]
+        except TimeoutError:
+            raise
+        except Exception as e:  # noqa: BLE001
+            return ["raised", type(e).__name__]
+
+    for kind in ("dim0", "dim1-hetero", "nested", "inside-td"):
+        for name, fn in variants():
+            try:
+                ref = outcome(kind, fn, 0)
+            except TimeoutError as e:
+                raise Infra(f"apply timed out: {e}")
+            for nt in ((1, 2, 4) if not quick else (rng.choice([1, 2]), 4)):
+                run.case(("apply-lazy", kind, name, nt))
+                try:
+                    got = outcome(kind, fn, nt)
+                except TimeoutError as e:
+                    raise Infra(f"apply timed out: {e}")
+                if got == ref:
+                    run.oracle_ok("apply_lazy_threads_eq_sequential")
+                else:
+                    why = first_diff(ref[1], got[1]) if ref[0] == got[0] == "ok" and isinstance(ref[1], list) and isinstance(got[1], list) else f"{ref[0]} {str(ref[1])[:60]} vs {got[0]} {str(got[1])[:60]}"
+                    run.oracle_fail("apply_lazy_threads_eq_sequential", {"stack": kind, "variant": name, "num_threads": nt},
+                                    f"apply({name}) on a lazy stack ({kind}) with num_threads={nt} differs from num_threads=0: {why}", f"apply-lazy:{kind}:{name}")
+        try:
+            ref = inplace_report(kind, 0)
+        except TimeoutError as e:
+            raise Infra(f"apply timed out: {e}")
+        for nt in (2, 4):
+            run.case(("apply-lazy-inplace", kind, nt))
+            try:
+                got = inplace_report(kind, nt)
+            except TimeoutError as e:
+                raise Infra(f"apply timed out: {e}")
+            if got == ref:
+                run.oracle_ok("apply_lazy_threads_eq_sequential")
+            else:
+                run.oracle_fail("apply_lazy_threads_eq_sequential", {"stack": kind, "variant": "inplace", "num_threads": nt},
+                                f"in-place apply on a lazy stack ({kind}) with num_threads={nt}: (outcome, returns self, handles see the update) = {got[:3]}, sequential {ref[:3]}",
+                                f"apply-lazy:{kind}:inplace")
+
+
 def run_existsok(run, tag="c12x"):
     """memmap / memmap_ / memmap_like(existsok=False) into a directory that holds a former save: the outcome (raise or write) and the
     content of the directory afterwards must be those of the num_threads=0 form (which refuses and leaves the old files alone)."""
@@ -795,3 +895,4 @@ def run_threads(run, drv):
         run_return_early(run)
         run_inplace_identity(run)
         run_existsok(run)
+        run_apply_lazy(run)
